@@ -4,8 +4,8 @@ import Lm.Inv.CoreGuards
 /-! # C02 — Pub/sub: each accepted message reaches exactly its eligible recipients, once
 
 Proved here about the sending side (`tell_if`, `tell_pubsub_msg`, the auto-free holder).  The end-to-end
-conservation statement (every copy is delivered once or discarded for a stated reason) is **not** proved as a
-theorem; it is checked on explored histories by the correspondence and by the oracle (see DESIGN.md). -/
+conservation statement over whole histories (every copy is delivered once or discarded for a stated reason) is **not**
+proved as a theorem (the sending side of a broadcast is: `C02_broadcast_exactly_the_eligible`); it is checked on explored histories by the correspondence and by the oracle (see DESIGN.md). -/
 namespace Lm.Props.C02
 open Lm.Core
 
@@ -90,6 +90,106 @@ theorem C02_nobody_eligible_released_at_once (s : St) (m r : ModId) (md : Mod) (
   unfold holderUnref newHolder
   simp [St.emit, hl]
 
+
+/-- broadcast = one `tell_if` per module of the table, in table order -/
+def bcast (s : St) (msg : Msg) (l : List ModId) : St := l.foldl (fun s r => tellIf s msg .bcast r) s
+
+theorem bcast_untouched (msg : Msg) : ∀ (l : List ModId) (s : St) (k : ModId), k ∉ l → (bcast s msg l).mods[k]? = s.mods[k]?
+  | [], _, _, _ => rfl
+  | r :: rs, s, k, hk => by
+    have h1 : k ≠ r := fun e => hk (by simp [e])
+    have h2 : k ∉ rs := fun e => hk (by simp [e])
+    show (bcast (tellIf s msg .bcast r) msg rs).mods[k]? = _
+    rw [bcast_untouched msg rs _ k h2, C02_nobody_else s msg .bcast r k h1]
+
+/-- **Exactly the eligible recipients, once each**: after a broadcast over a duplicate-free list of modules, a module of the
+list that is RUNNING or PAUSED with room in its mailbox holds exactly one more message, at the end, carrying the payload; every
+module of the list that is not eligible, and every module outside the list, is untouched. -/
+theorem C02_broadcast_one_copy_each (msg : Msg) : ∀ (l : List ModId) (s : St), l.Nodup → ∀ (k : ModId) (md : Mod), s.mods[k]? = some md →
+    (k ∉ l → (bcast s msg l).mods[k]? = some md) ∧
+    (k ∈ l → md.state ≠ .running ∧ md.state ≠ .paused → (bcast s msg l).mods[k]? = some md) ∧
+    (k ∈ l → (md.state = .running ∨ md.state = .paused) → ∀ q, md.pipe = some q → q.length + md.pipeSkip < pipeCap →
+      ∃ copy md', (bcast s msg l).mods[k]? = some md' ∧ md'.pipe = some (q ++ [copy]) ∧ copy.payload = msg.payload ∧
+        copy.sender = msg.sender ∧ copy.topic = msg.topic ∧ md'.state = md.state)
+  | [], s, _, k, md, hm => ⟨fun _ => hm, ⟨fun h => absurd h (by simp), fun h => absurd h (by simp)⟩⟩
+  | r :: rs, s, hn, k, md, hm => by
+    have hn' := List.nodup_cons.mp hn
+    refine ⟨fun hk => ?_, fun hk hne => ?_, fun hk he q hp hroom => ?_⟩
+    · rw [bcast_untouched msg (r :: rs) s k hk]; exact hm
+    · show (bcast (tellIf s msg .bcast r) msg rs).mods[k]? = _
+      rcases List.mem_cons.mp hk with rfl | hk'
+      · rw [bcast_untouched msg rs _ k hn'.1, C02_not_eligible_no_effect s msg .bcast k md hm hne]; exact hm
+      · have hkr : k ≠ r := fun e => hn'.1 (e ▸ hk')
+        have hm' : (tellIf s msg .bcast r).mods[k]? = some md := by rw [C02_nobody_else s msg .bcast r k hkr]; exact hm
+        exact (C02_broadcast_one_copy_each msg rs _ hn'.2 k md hm').2.1 hk' hne
+    · show ∃ copy md', (bcast (tellIf s msg .bcast r) msg rs).mods[k]? = some md' ∧ _
+      rcases List.mem_cons.mp hk with rfl | hk'
+      · obtain ⟨c, md', h1, h2, h3, h4, h5, _, h6, _, _⟩ := C02_eligible_gets_one_copy s msg .bcast k md q hm he hp hroom
+        refine ⟨c, md', ?_, h2, h5, h3, h4, h6⟩
+        rw [bcast_untouched msg rs _ k hn'.1]; exact h1
+      · have hkr : k ≠ r := fun e => hn'.1 (e ▸ hk')
+        have hm' : (tellIf s msg .bcast r).mods[k]? = some md := by rw [C02_nobody_else s msg .bcast r k hkr]; exact hm
+        exact (C02_broadcast_one_copy_each msg rs _ hn'.2 k md hm').2.2 hk' he q hp hroom
+
+theorem nodup_filterMap' {α β : Type} (f : α → Option β) : ∀ (l : List α), l.Nodup →
+    (∀ a ∈ l, ∀ b ∈ l, ∀ x, f a = some x → f b = some x → a = b) → (l.filterMap f).Nodup
+  | [], _, _ => by simp
+  | a :: l, hn, hinj => by
+    have hn' := List.nodup_cons.mp hn
+    have ih := nodup_filterMap' f l hn'.2 (fun x hx y hy => hinj x (by simp [hx]) y (by simp [hy]))
+    simp only [List.filterMap_cons]
+    cases hfa : f a with
+    | none => simpa using ih
+    | some x =>
+      simp only
+      refine List.nodup_cons.mpr ⟨fun hm => ?_, ih⟩
+      obtain ⟨b, hb, he⟩ := List.mem_filterMap.mp hm
+      have := hinj a (by simp) b (by simp [hb]) x hfa he
+      exact hn'.1 (this ▸ hb)
+
+theorem nodup_map' {α β : Type} (f : α → β) : ∀ (l : List α), l.Nodup → (∀ a ∈ l, ∀ b ∈ l, f a = f b → a = b) → (l.map f).Nodup
+  | [], _, _ => by simp
+  | a :: l, hn, hinj => by
+    have hn' := List.nodup_cons.mp hn
+    simp only [List.map_cons, List.nodup_cons]
+    refine ⟨?_, nodup_map' f l hn'.2 (fun x hx y hy => hinj x (by simp [hx]) y (by simp [hy]))⟩
+    intro hm
+    obtain ⟨b, hb, he⟩ := List.mem_map.mp hm
+    have := hinj b (by simp [hb]) a (by simp) he
+    subst this
+    exact hn'.1 hb
+
+/-- the module table is walked without visiting a module twice (no invariant needed: two different slots cannot hold the
+same module) -/
+theorem C02_table_walk_visits_once (s : St) : s.tableOrder.Nodup := by
+  unfold St.tableOrder
+  apply nodup_filterMap'
+  · unfold St.scanOrder
+    apply nodup_map' _ _ List.nodup_range
+    intro a ha b hb h
+    simp only [List.mem_range, tableSize] at ha hb h
+    omega
+  · intro a _ b _ x ha hb
+    unfold St.modAtSlot at ha hb
+    obtain ⟨h1, h2, _⟩ := List.findIdx?_eq_some_iff_getElem.mp ha
+    obtain ⟨_, h3, _⟩ := List.findIdx?_eq_some_iff_getElem.mp hb
+    simp only [Bool.and_eq_true, beq_iff_eq] at h2 h3
+    rw [← h2.2, ← h3.2]
+
+/-- `m_mod_ps_broadcast` (no recipient, no topic) is that walk -/
+theorem C02_broadcast_is_the_table_walk (s : St) (msg : Msg) (h : msg.topic = none) : tellPubsub s msg none = bcast s msg s.tableOrder := by
+  unfold tellPubsub bcast
+  simp [h]
+
+/-- **Broadcast: exactly the eligible recipients, once each** — the two facts above put together for `m_mod_ps_broadcast` -/
+theorem C02_broadcast_exactly_the_eligible (s : St) (msg : Msg) (h : msg.topic = none) (k : ModId) (md : Mod) (hm : s.mods[k]? = some md) :
+    (k ∉ s.tableOrder → (tellPubsub s msg none).mods[k]? = some md) ∧
+    (k ∈ s.tableOrder → md.state ≠ .running ∧ md.state ≠ .paused → (tellPubsub s msg none).mods[k]? = some md) ∧
+    (k ∈ s.tableOrder → (md.state = .running ∨ md.state = .paused) → ∀ q, md.pipe = some q → q.length + md.pipeSkip < pipeCap →
+      ∃ copy md', (tellPubsub s msg none).mods[k]? = some md' ∧ md'.pipe = some (q ++ [copy]) ∧ copy.payload = msg.payload ∧
+        copy.sender = msg.sender ∧ copy.topic = msg.topic ∧ md'.state = md.state) := by
+  rw [C02_broadcast_is_the_table_walk s msg h]
+  exact C02_broadcast_one_copy_each msg s.tableOrder s (C02_table_walk_visits_once s) k md hm
 
 /-- the final flush hands over every pending message that was told directly or broadcast (no subscription involved): the
 one-shot rule (D-03c) can only drop messages that reached the module through a one-shot subscription that already fired -/
